@@ -45,11 +45,44 @@ func vGhost(cc *grpc.ClientConn) *vConn {
 	return g
 }
 
+// monitor harness: the pool's connectivity may change between any two reads of it
+var (
+	vMonitorMode bool
+	vMonReads    int
+	vMonWaits    int
+	vMonParked   bool
+)
+
 func verifConnGetState(cc *grpc.ClientConn) connectivity.State {
-	if vGhost(cc).ready {
+	g := vGhost(cc)
+	if vMonitorMode {
+		g.ready = verifBool("monReady" + verifD(vMonReads))
+		vMonReads++
+	}
+	if g.ready {
 		return connectivity.Ready
 	}
 	return connectivity.TransientFailure
+}
+
+// WaitForStateChange(ctx, s): returns true at once when the pool is not (or no longer) in state s;
+// otherwise the caller sleeps until the next change - the harness ends the run there (false).
+// The pool may have changed state since the caller last looked (during notify).
+func verifConnWaitForStateChange(cc *grpc.ClientConn, ctx context.Context, s connectivity.State) bool {
+	g := vGhost(cc)
+	vMonWaits++
+	if vMonitorMode && vMonWaits < 3 && verifBool("changedMeanwhile"+verifD(vMonWaits)) {
+		g.ready = !g.ready
+	}
+	cur := connectivity.TransientFailure
+	if g.ready {
+		cur = connectivity.Ready
+	}
+	if cur != s && vMonWaits < 3 {
+		return true
+	}
+	vMonParked = cur == s
+	return false
 }
 func verifConnClose(cc *grpc.ClientConn) error {
 	vGhost(cc).closed = true
@@ -394,11 +427,41 @@ func VerifH_gmenotify() {
 	verifObserve("conns", uint64(vNConns))
 }
 
+// The real monitor loop of one pool: whenever it goes to sleep waiting for the next connectivity
+// change, every MultiEndpoint has been told the state the pool is actually in (C15: routing follows
+// a connectivity change within bounded time - a change the monitor sleeps through is never reported).
+func VerifH_gmemonitor() {
+	vReset2()
+	dflt, read := []string{"ep-a", "ep-b"}, []string{"ep-b", "ep-c"}
+	opts := &GCPMultiEndpointOptions{
+		MultiEndpoints: map[string]*multiendpoint.MultiEndpointOptions{"default": {Endpoints: dflt}, "read": {Endpoints: read}},
+		Default:        "default",
+		DialFunc:       vDial,
+	}
+	gme, err := NewGCPMultiEndpoint(opts)
+	verifAssert(err == nil && gme != nil, "C16: valid construction failed")
+	mc := gme.pools[vEpName(verifCase("ep"))]
+	verifAssert(mc != nil, "C15: pool missing")
+	vMonitorMode, vMonReads, vMonWaits, vMonParked = true, 0, 0, false
+	mc.monitor(&verifCtx{})
+	vMonitorMode = false
+	verifAssert(verifLocksFree(), "C15: monitor left a lock held")
+	if vMonParked {
+		verifReach("monitor sleeps")
+		if w := vFirstReady(gme, dflt); w != "" {
+			verifAssert(gme.mes["default"].Current() == w, "C15: the pool's monitor went to sleep without having reported the pool's current connectivity (routing does not follow the change)")
+		}
+		if w := vFirstReady(gme, read); w != "" {
+			verifAssert(gme.mes["read"].Current() == w, "C15: the pool's monitor went to sleep without having reported the pool's current connectivity (routing does not follow the change)")
+		}
+	}
+	verifReach("end")
+	verifObserve("reads", uint64(vMonReads))
+	verifObserve("waits", uint64(vMonWaits))
+}
+
 // native replay only (see rewrite.json): the monitor goroutine is not started, a state change never comes
 func verifGo(f func()) {}
-func verifConnWait(cc *grpc.ClientConn, ctx context.Context, s connectivity.State) bool {
-	return false
-}
 
 // Pattern P3 for GCPMultiEndpoint: an RPC is being routed while UpdateMultiEndpoints runs on another
 // goroutine.  Whenever pickConn re-acquires gme.mu after having released it, the reconfiguration
